@@ -539,7 +539,7 @@ func samDrive(args []string) error {
 			tw.emit(ev)
 		}
 		// SAM isolation (C11): every record line x every kind of single-line corruption
-		if sid%2 == 0 && nr > 0 && nr <= 6 {
+		if sid%2 == 0 && nr > 0 && nr <= 6 && len(file) < 20000 {
 			lines := bytes.Split(bytes.TrimSuffix(file, []byte("\n")), []byte("\n"))
 			for li, ln := range lines {
 				ln = bytes.TrimSuffix(ln, []byte("\r"))
